@@ -598,19 +598,21 @@ def run_case(res, case, ctx, lines_acc):
     lines_acc.append((case, ref, dup, diff))
     if diff is not None:
         sig, sg = classify(case, ref, True)
-        res.violate(sig, "duplicated delivery changes the externally visible behaviour: " + diff["what"], {"case": case, "diff": diff, "culprit": sg})
+        violate_limited(res, sig, "duplicated delivery changes the externally visible behaviour: " + diff["what"], {"case": case, "diff": diff, "culprit": sg})
     elif ref.get("cache") != dup.get("cache"):
         # not an observation of the property: an allowed extra unicast answer to the instance's own looped-back
         # probe is received by the instance itself and refreshes `created` of its cached copies
         res.count("cache-differs-after-equivalent-runs")
     if dup["d11"]:
-        res.count("runs-with-D11-deliveries")
+        res.count("runs-with-deliveries-matching-a-known-finding")
+    if dup["d11"] and (res.dist.get("violations:" + D11_SIG, 0) < 3 or res.dist.get("violations:" + D11B_SIG, 0) < 3):
+        # confirm the recorded findings on a few cases (every delivery duplicated, none spared)
         full = simulate(case, "all")
         d2 = compare(ref, full)
         if d2 is not None and diff is None:
             sig, sg = classify(case, ref, False)
             what = WHAT.get(sig, "duplicated delivery changes the externally visible behaviour: " + d2["what"])
-            res.violate(sig, what, {"case": case, "diff": d2, "culprit": sg})
+            violate_limited(res, sig, what, {"case": case, "diff": d2, "culprit": sg})
     return diff
 
 
@@ -642,6 +644,13 @@ def flush_model(res, ctx, acc):
             check_model(res, case, obs, out[a:a + n], which)
 
 
+def violate_limited(res, sig, what, case, per_sig=3):
+    """`Result.violations` is capped: repeated reports of one (possibly known) signature must not crowd out a new one"""
+    res.count("violations:" + sig)
+    if sum(1 for v in res.violations if v["sig"] == sig) < per_sig:
+        res.violate(sig, what, case)
+
+
 def run(ctx):
     res = C.Result("C16")
     res.rule = ("paired simulator runs of one real instance (1-2 services, two browsers, optional lookup): reference vs every delivery duplicated "
@@ -651,7 +660,7 @@ def run(ctx):
     for name, body in C.load_corpus("C16"):
         run_case(res, body["case"], ctx, acc)
         res.count("corpus")
-    n = C.Budget(ctx["tier"], 90, 2500).n
+    n = C.Budget(ctx["tier"], 1000, 20000).n
     if ctx["widened"]:
         n *= 4
     for idx in range(n):
